@@ -241,6 +241,7 @@ def check(rep, rule, cls, queries, what):
                     if any(_field_of(t, me) == x for t in flat):
                         exprs.append(n.value)
             src = sources_of(fn, exprs, methods, frozenset(guard_names(fn, x))) - {x}
+            src = {f_ for f_ in src if f_ not in methods}
             rep.count('%s memo fields' % rule)
             for other_name, m in sorted(methods.items()):
                 if m.node is fn:
